@@ -15,6 +15,8 @@ import (
 	"github.com/ethereum/go-ethereum/accounts/abi"
 	"github.com/ethereum/go-ethereum/common"
 
+	operatortypes "github.com/ExocoreNetwork/exocore/x/operator/types"
+
 	"verif/mon"
 	"verif/ops"
 	"verif/sim"
@@ -161,6 +163,11 @@ func runLive(j Job) *Result {
 			if (i/8)%3 == 2 {
 				l.fam = "last-validator-exits"
 				w = l.lastExit()
+				break
+			}
+			if (i/8)%3 == 1 {
+				l.fam = "unpriced-asset-slash"
+				w = l.unpricedSlash()
 				break
 			}
 			l.fam = "governance"
@@ -554,5 +561,62 @@ func (l *liveRun) lastExit() *ops.World {
 		}
 	}
 	l.s.Case(l.fam + "|workload-completed")
+	return w
+}
+
+// unpricedSlash: a token registered at run time whose first oracle round fails has an empty price; an operator
+// holding that asset is then slashed for downtime (everything the slash values must cope with the missing price),
+// and epoch ends value it too.
+func (l *liveRun) unpricedSlash() *ops.World {
+	r := l.r
+	n := 2 + r.Intn(3)
+	stakes := make([]int64, n)
+	for i := range stakes {
+		stakes[i] = int64(50 + r.Intn(500))
+	}
+	c, err := sim.NewChain(sim.DefaultConfig(n, stakes))
+	if err != nil {
+		return nil
+	}
+	w := ops.NewWorld(c, r)
+	w.Dt = 10 * time.Second
+	if !w.Start() {
+		return w
+	}
+	victim := w.Opers[1]
+	if st := w.RegisterToken(1 + r.Intn(1000)); !st.Ack {
+		l.s.Case(l.fam + "|token-not-registered")
+		return w
+	}
+	a := w.Assets[len(w.Assets)-1]
+	s := w.AddStaker(a.Lz, sim.NewAccount("unpriced-staker-"+l.hist).Eth.Bytes())
+	amt := sdkmath.NewInt(int64(1_000_000 * (1 + r.Intn(50))))
+	if st := w.Deposit(s, a, amt); st.Ack {
+		w.Delegate(s, a, victim, amt)
+	}
+	// a delegation of a priced asset as well: the operator's power changes at the next epoch end
+	s2 := w.AddStaker(w.Assets[0].Lz, sim.NewAccount("unpriced-staker2-"+l.hist).Eth.Bytes())
+	if st := w.Deposit(s2, w.Assets[0], amt); st.Ack {
+		w.Delegate(s2, w.Assets[0], victim, amt)
+	}
+	for k := 0; k < 17 && !w.Dead; k++ { // the new feeder starts 10 blocks later, its first window passes without reports
+		w.Advance(w.Dt)
+	}
+	if !w.Dead {
+		c.Absent[fmt.Sprintf("%X", victim.Keys[0].ConsAddr().Bytes())] = true
+		for k := 0; k < 16 && !w.Dead; k++ {
+			w.Advance(w.Dt)
+		}
+		delete(c.Absent, fmt.Sprintf("%X", victim.Keys[0].ConsAddr().Bytes()))
+	}
+	if !w.Dead {
+		slashed := false
+		for key := range w.Last.Raw["operator"] {
+			if len(key) > 0 && key[0] == operatortypes.KeyPrefixOperatorSlashInfo[0] && strings.Contains(key, victim.Addr()) {
+				slashed = true
+			}
+		}
+		l.s.Case(fmt.Sprintf("%s|downtime-slash-executed=%v|workload-completed", l.fam, slashed))
+	}
 	return w
 }
